@@ -160,7 +160,7 @@ def check_rule(res, rmod, rule):
                 nontriv = True
             if nontriv:
                 res['nontrivial'] += 1
-            res['outcomes'].add('ok' if r is None else r[0])
+            res['outcomes'].add('filters ' + ','.join(str(k) for k in kinds) + ': ' + ('ok' if r is None else r[0]))
             if r is not None:
                 sig = r[0]
                 if r[0].startswith('url-raised:AssertionError') and 'path' in kinds:
